@@ -58,6 +58,29 @@ CLAIMED.update({
          "Hierarchical model: the cluster list stays a partition of the training indices, every point gets exactly one label < K, K <= max_iterations+1, no accepted split has a child below min_points, argmax/argmin predictions are < K. M-step: mixing weights on the simplex, covariances symmetric PSD (diag >= 0), means convex combinations inside the bounding box for components with S_k >= tiny, integer weights equivalent to replication (weights, means, covariances incl. the +eps terms), initial responsibilities rows on the simplex. The whole-fit statement is conditional on finite non-negative responsibilities (scipy's density is outside the model). Real _m_step/_e_step/_initialize_parameters vs Float model; real HierarchicalGaussianMixture.fit replayed decision by decision.",
          "DESIGN.md §6 C15"),
 })
+CLAIMED.update({
+ "C01": ("PARTIAL — Lean 4 proofs of the exact-arithmetic skeleton (balance-heuristic identity on finite spaces, kernel invariance, mean-field recursion, structural facts of the pipeline model) + whole-pipeline trace replay tying the composed step models to the real sampler",
+         "Proved: with batches at their nominal tempered laws and exact normalisers the mixture-importance estimator is exactly unbiased for the tempered integrals (mean unnormalised weight = Z_beta, ratio = posterior mean), also with a likelihood vanishing on part of the prior given one beta=0 batch; a reversible kernel keeps the tempered law; the mean-field recursion keeps every batch at its nominal law for any schedule; in the pipeline model the weights handed to resampling, the beta of every accept/reject step and the committed (beta, logz) belong to one beta, and each iteration appends one batch. NOT a theorem: a rate for the finite-particle deviation (the statement's allowance) — hence partial. Tie: real runs with all randomness observed are replayed by the Lean pipeline model (composition of the C04/C20/C05/C06/C03/C11/C07 models), which must reproduce beta, ESS, logZ, resampled indices, accept masks and committed batches.",
+         "DESIGN.md §6 C01"),
+ "C02": ("PARTIAL — Lean 4 proofs (unbiasedness of the evidence estimator under nominal laws, evidence() = log mean weight at beta=1, recorded logz = estimate at the recorded beta, RNG dataflow re-exported from C09) + evidence trace replay and seed-sensitivity observations",
+         "Proved: E[mean unnormalised weight] = Z_beta under the nominal batch laws; the final evidence of the pipeline model is log((1/N) sum exp logw) at beta=1 over the whole history; each recorded logz is the estimator evaluated on the history available then; no library operation forgets the ambient seed, seeded runs are functions of the seed. NOT theorems: finite-N bias/variance bounds and statistical independence — hence partial. Tie: per-iteration and final evidence of real runs reproduced by the pipeline model; differently seeded runs (clustering on/off) give different evidence.",
+         "DESIGN.md §6 C02"),
+ "C08": ("Lean 4 proof on a byte-prefix crash model of the file system and a map model of save/load/resume, with the save protocol / load method / cadence regenerated from source (AST translator G7) + exact round-trip, cadence, protocol-trace and crash-injection correspondence",
+         "tempRename protocol: in EVERY crash state (every op prefix, every byte offset of the last write) the final name holds the old content or the complete payload, hence is absent or loadable; the direct protocol is not (documented witness); a trace classified tempRename has the shape the theorem needs — obligation decided on the op list regenerated from save_sampler_state; load(fresh, save s) restores current and history exactly (defaults only where s had None), resume continues iter/calls and keeps the restored history as a prefix; periodic checkpoints exactly at t0 + j*k plus the final one; pool detached and always re-attached. Real saves are traced (open/write/flush/fsync/replace) and killed at op boundaries and byte offsets in child processes.",
+         "DESIGN.md §6 C08"),
+ "C10": ("Lean 4 proof at ℝ on the whole-iteration pipeline model (induction over iterations, using the C04 shift law, the C05 oracle-congruence and the regenerated acceptance expression) + paired real runs and shifted trace replay",
+         "C10_run: for every tape, every configuration of the pipeline model and every constant c, running on log-likelihoods shifted by c gives the same schedule, ESS, resampled indices, accept masks and particles, every committed log-likelihood shifted by c, every recorded evidence by beta_t*c and the final evidence by exactly c (also the failing outcomes coincide). Real paired runs (kernel x resampler x clustering x metric mode, c up to +-1000) must agree within 1e-8 with a c/2, 2c re-test against rounding-induced flips; runs with shifted likelihoods are replayed by the pipeline model.",
+         "DESIGN.md §6 C10"),
+ "C14": ("Lean 4 proof on list models of label-to-mode lookup and of the clustering cadence state machine + exact correspondence on the real ModeStatistics / Mutator / Trainer / Resampler and on real runs",
+         "For every training label vector and EVERY raw assignment the mapped mode index is < K, the relabelled assignment is a present label and the mode at that index was built from exactly the training particles of that label (identity when the label is present); for every cluster_every >= 1, every beta schedule and every resume point no predict precedes the first fit; cap K <= n_max_clusters given C15's bound; a constructed mode object has inverse and Cholesky factor. The old raw-index lookup and the old cadence are kept as documented counter-examples of the two repaired defects.",
+         "DESIGN.md §6 C14"),
+ "C17": ("Lean 4 invariant proof by induction over op sequences on a reference-level (heap + ghost sets) model of StateManager + exact state-machine differential on random op sequences and on real sampler iterations with scribbling",
+         "Inv (every internally reachable array is disjoint from every array ever returned to the caller, except arrays stored on request with copy=False / update_from_dict) holds after every op sequence of the full alphabet; hence any observation is independent of scribbling on returned arrays (C17_full: traces with and without scribbles coincide); a commit appends exactly one entry per recorded non-None key and nothing else; old history is a payload-prefix of new history for every op but import. Real StateManager and the model run the same random op sequences (incl. malformed ops) and must print identical digests of all observable reads after every op.",
+         "DESIGN.md §6 C17"),
+ "C18": ("Lean 4 proof about the validation rule table, constructor order table and clusterer wiring regenerated from source (AST translator G2), with a Python-semantics interpreter over a typed value universe + exact correspondence on thousands of generated configurations and a covering array checked in Lean and executed",
+         "SamplerConfig accepts iff the documented constraints hold (and types are sane): every violation — alone or combined — is rejected, nothing valid is rejected; rejection happens in the constructors before any likelihood call (decided on the regenerated call table); wiring of the clusterer parameters is sound. The pairwise / 3-wise covering arrays the harness executes are verified in Lean by decide. 'Every valid combination runs to completion' is execution only (partial): all covering rows must finish and meet the run postconditions; the residual degenerate-cluster crash of tiny populations is the recorded known finding F24.",
+         "DESIGN.md §6 C18"),
+})
 NOT_YET = {}
 props = [json.loads(l) for l in open(os.path.join(HERE, "properties.jsonl"))]
 checks, na = [], []
